@@ -3,7 +3,9 @@
 Inputs: the shipped example files and the string literals of /repo/src (unit-test inputs), mutated
 (token deletion / duplication / swap, numeral inflation to the limits of isize/usize and beyond,
 huge variable indices, operator soup, unbalanced parentheses, deep nesting, huge arities, empty
-file, comments only, NUL / non-UTF-8 bytes, CRLF, BOM), at most 4 KB.
+file, comments only, NUL / non-UTF-8 bytes, CRLF, BOM, a token / keyword repeated 3..6 times), at
+most 4 KB; plus a fixed corpus: every keyword / operator / bracket of a small file of each type
+repeated, and - in-process - every token of valid texts of every node type repeated.
 Every input goes through EVERY command of the CLI (parse --as x4, translate --with x5, simplify
 3x3, analyze x2, verify in six role assignments + the example's own task) under a 10 s watchdog, and
 through `str::parse::<T>()` of all 43 node types in-process (harness op `parse_any`).
@@ -26,7 +28,12 @@ from c16lib import *  # noqa: F401,F403  (classify, mutate, commands, run_input,
 
 # ------------------------------------------------------------------ the hook
 
-def extra(ctx, cfg, results):
+def cli_search(ctx, cfg):
+    """the CLI-only part (bin/check falls back to it when the harness does not build against the tree)"""
+    extra(ctx, cfg, {}, inprocess=False)
+
+
+def extra(ctx, cfg, results, inprocess=True):
     exe = clilib.anthem_exe()
     thorough = ctx.tier == "thorough"
     n_inputs = 12000 if thorough else 1800
@@ -47,6 +54,11 @@ def extra(ctx, cfg, results):
              "p(X) :- X = -9223372036854775808.\n", "forall X$i (X$i = -9223372036854775808 -> p(X$i)).\n"]
     for t in fixed:
         inputs.append((t.encode(), None, "fixed"))
+    # every keyword / operator / bracket of a small file of each type, repeated 3 (5) times
+    repeated = cli_repeat_corpus()
+    for t in repeated:
+        inputs.append((t.encode(), None, "fixed: repeated token"))
+    n_fixed = len(inputs)
     while len(inputs) < n_inputs:
         if tasks and r.random() < 0.45:
             eq, flags, files = r.choice(tasks)
@@ -88,12 +100,21 @@ def extra(ctx, cfg, results):
         if accepted_somewhere:
             ctx.nontrivial.add(text)
     # in-process parsing of every node type
-    kinds = harness_kinds()
+    kinds = harness_kinds() if inprocess else []
     r2 = clilib.rng(ctx, "inprocess")
-    texts = [t for t, _, _ in inputs if len(t) <= 600]
+    texts = [t for t, _, _ in inputs[n_fixed:] if len(t) <= 600]
     r2.shuffle(texts)
+    # (the fixed texts always; then a sample of the mutants)
+    texts = [t for t, _, o in inputs[:n_fixed] if o.startswith("fixed")] + texts
     lines, meta = [], []
-    for t in texts[:n_inproc]:
+    # node-type stream: valid texts of each of the node types and every token of them repeated
+    # 3, 4, 6 times, parsed as that node type and as the broad node types of the language
+    stream = node_type_stream(kinds)
+    for k, t in stream:
+        lines.append(f"parse_any\t({sx(k.encode())} {sx(t)})")
+        meta.append((k, t))
+    n_stream = len(lines)
+    for t in (texts[:n_inproc] if inprocess else []):
         try:
             t.decode("utf8")
         except UnicodeDecodeError:
@@ -101,7 +122,12 @@ def extra(ctx, cfg, results):
         for k in kinds:
             lines.append(f"parse_any\t({sx(k.encode())} {sx(t)})")
             meta.append((k, t))
-    inproc = run_isolating(lines)
+    inproc = run_isolating(lines) if lines else []
+    dist["node_type_stream_cases"] = n_stream
+    bad_seeds = [(k, t.decode()) for (k, t), o in zip(meta[:n_stream], inproc[:n_stream])
+                 if t.decode() in NODE_SEEDS.get(k, []) and o == "err"]
+    if bad_seeds:
+        ctx.notes.append(f"node-type seeds that no longer parse as their node type (props/c16lib.py NODE_SEEDS): {bad_seeds[:10]}")
     for (k, t), o in zip(meta, inproc):
         dist["in_process_cases"] += 1
         ctx.evaluations += 1
@@ -127,7 +153,7 @@ def extra(ctx, cfg, results):
     if crashes:
         ctx.notes.append(f"{len(crashes)} crashing runs outside the recorded classes at {len(sites)} distinct sites: {sorted(sites)[:12]}")
     ctx.distribution["malformed_input_stream"] = dist
-    ctx.samples.insert(0, {"note": "three inputs of the stream (repr)", "inputs": [repr(t)[:200] for t, _, _ in inputs[len(tasks) * 3 + 20: len(tasks) * 3 + 23]]})
+    ctx.samples.insert(0, {"note": "three inputs of the stream (repr)", "inputs": [repr(t)[:200] for t, _, _ in inputs[n_fixed + 5: n_fixed + 8]]})
     acc = sum(dist["accepted_by_command"].values())
     log(f"C16 stream: {dist['inputs']} inputs, {dist['cli_runs']} CLI runs ({acc} accepted, {sum(dist['rejected_by_command'].values())} rejected with an error), "
         f"{dist['in_process_cases']} in-process parses {dist['in_process_outcomes']}; crashes in recorded classes {dist['known_class_crashes']}; "
